@@ -24,7 +24,8 @@ EXPLANATION = (
     'the intersection operator exactly between something that ends a value and something that starts one, for every '
     'pair of contexts, on the token stream FormulaParser.tokenize produces; (C02.9) operator trees (shared with '
     'C01.1-.5); (C02.10) witness formulas through FormulaParser.tokenize and OperandNode.eval: literals keep '
-    'blanks, tabs, line breaks and (un-doubled) quotes, quoted sheet names their characters.')
+    'blanks, tabs, line breaks and (un-doubled) quotes, quoted sheet names their characters.'
+    ' (C02.3) additionally generated tables: 15 argument forms in every position of nested calls, runs of quote characters in string literals; (C02.4) the seven error literals tokenized in four contexts.')
 NOT_DECIDED = ('equivalence of the hand-written state machine and the shunting-yard argument counting '
                'with the formula grammar for all texts (needs execution against a reference parser)')
 TRUSTED = ['token kinds of the grammar transcribed from the property statement']
